@@ -41,7 +41,7 @@ def anchors():
 def gen_cases(tier, seed):
     r = gen.rng(seed, "c14")
     n = 60 if tier == "quick" else 6000
-    for kind in ("bet", "langmuir", "tplot", "alphas", "da"):
+    for kind in ("bet", "langmuir", "tplot", "alphas", "da", "betwindow"):
         for i in range(n):
             yield {"kind": kind, "seed": r.randrange(1 << 30), "window": i % 6}
 
@@ -147,6 +147,77 @@ def _cmp(ctx, key, label, got, exp, rt=1e-7):
     return True
 
 
+def _auto_window(ctx, p, n, sigma, iso, dg, nm):
+    """The automatic (Rouquerol) window: ends where n(1-p) stops increasing, starts at one tenth of that pressure."""
+    from pygaps.characterisation.area_bet import area_BET
+    from pygaps.characterisation.area_bet import area_BET_raw
+    roq = n * (1 - p)
+    k = None
+    for i in range(len(roq) - 1):
+        if roq[i] > roq[i + 1]:
+            k = i
+            break
+    ends = {len(p) - 1} if k is None else {k, k + 1}
+    for entry in ("raw", "isotherm"):
+        res = _call(area_BET_raw, p, n, sigma, None) if entry == "raw" else _call(area_BET, iso)
+        ctx.case(["bet-auto", entry, dg])
+        key = "area_BET%s/rouquerol" % ("_raw" if entry == "raw" else "")
+        if res[0] != "ok":
+            if _is_calc(res[1]):
+                ctx.count("bet", "auto-window-refused")
+                # legitimate only if every admissible window has fewer than 3 points
+                ok_refusal = all((e - int(numpy.searchsorted(p, 0.1 * p[e]))) < 2 for e in ends)
+                if not ok_refusal:
+                    ctx.violation(key + "/refused", "automatic window refused although it holds at least three points", exc=res[1], ends=sorted(ends))
+            else:
+                ctx.violation(key + "/raises", "automatic BET window raised", exc=res[1])
+            continue
+        mn, mx = (res[1][6], res[1][7]) if entry == "raw" else res[1]["p_limit_indices"]
+        ctx.count("bet", "auto-window/" + ("interior-maximum" if k is not None else "no-maximum"))
+        if int(mx) not in ends:
+            ctx.violation(key + "/end", "automatic window does not end where n(1-p) stops increasing", got=int(mx), allowed=sorted(ends), roq=roq[max(0, int(mx) - 2):int(mx) + 3])
+        elif int(mn) != int(numpy.searchsorted(p, 0.1 * p[int(mx)])):
+            ctx.violation(key + "/start", "automatic window does not start at one tenth of its end pressure", got=int(mn), expected=int(numpy.searchsorted(p, 0.1 * p[int(mx)])))
+        n_mono = res[1][2] if entry == "raw" else res[1]["n_monolayer"]
+        if nm is not None:
+            _cmp(ctx, key, "n_monolayer", n_mono, nm, 1e-6)
+
+
+def _run_betwindow(case, ctx):
+    """Type I / finite-layer shaped data, for which n(1-p) has an interior maximum: only the window rule is judged."""
+    import pygaps
+    r = gen.rng(case["seed"], "bw")
+    nm = gen.log_uniform(r, 1e-4, 1e-1)
+    ads = r.choice(["nitrogen", "argon", "krypton"])
+    T = {"nitrogen": 77.355, "argon": 87.3, "krypton": 120.0}[ads]
+    sigma = pygaps.Adsorbate.find(ads).get_prop("cross_sectional_area")
+    K = gen.log_uniform(r, 5, 400)
+    # dense at low pressure, coarse around the maximum: points fall between one tenth of neighbouring candidates for the window end
+    low = numpy.exp(numpy.linspace(math.log(1e-3), math.log(0.06), r.randint(25, 60)))
+    high, x = [], 0.06
+    while True:
+        x += r.uniform(0.01, 0.12)
+        if x > 0.9:
+            break
+        high.append(x)
+    p = numpy.concatenate([low, numpy.array(high)])
+    shape = r.choice(["langmuir", "two-layer", "capped"])
+    if shape == "langmuir":
+        n = nm * K * p / (1 + K * p)
+    elif shape == "two-layer":  # BET with at most two layers
+        n = nm * K * p / (1 - p) * (1 - 3 * p**2 + 2 * p**3) / (1 + (K - 1) * p - K * p**3)
+    else:
+        n = nm * K * p / ((1 - p) * (1 - p + K * p)) * (1 - p)**r.uniform(1.2, 2.5)
+    if not (numpy.all(numpy.isfinite(n)) and numpy.all(n > 0)):
+        ctx.count("skipped", "betwindow-nonpositive")
+        return
+    from pgverif.core import _h
+    dg = _h([nm, K, shape, len(p)])
+    iso = _restore(_iso(p, n, ads, T), r)
+    ctx.count("betwindow", shape)
+    _auto_window(ctx, p, n, sigma, iso, dg, None)
+
+
 # ------------------------------------------------------------------ BET
 
 
@@ -198,36 +269,7 @@ def _run_bet(case, ctx):
         _cmp(ctx, key, "intercept", intercept, 1 / (nm * C), 1e-6)
         if not corr > 1 - 1e-9:
             ctx.violation(key + "/corr_coef", "correlation coefficient of exactly linear data is not 1", got=corr)
-    # automatic (Rouquerol) window
-    roq = n * (1 - p)
-    k = None
-    for i in range(len(roq) - 1):
-        if roq[i] > roq[i + 1]:
-            k = i
-            break
-    ends = {len(p) - 1} if k is None else {k, k + 1}
-    for entry in ("raw", "isotherm"):
-        res = _call(area_BET_raw, p, n, sigma, None) if entry == "raw" else _call(area_BET, iso)
-        ctx.case(["bet-auto", entry, dg])
-        key = "area_BET%s/rouquerol" % ("_raw" if entry == "raw" else "")
-        if res[0] != "ok":
-            if _is_calc(res[1]):
-                ctx.count("bet", "auto-window-refused")
-                # legitimate only if every admissible window has fewer than 3 points
-                ok_refusal = all((e - int(numpy.searchsorted(p, 0.1 * p[e]))) < 2 for e in ends)
-                if not ok_refusal:
-                    ctx.violation(key + "/refused", "automatic window refused although it holds at least three points", exc=res[1], ends=sorted(ends))
-            else:
-                ctx.violation(key + "/raises", "automatic BET window raised", exc=res[1])
-            continue
-        mn, mx = (res[1][6], res[1][7]) if entry == "raw" else res[1]["p_limit_indices"]
-        ctx.count("bet", "auto-window/" + ("interior-maximum" if k is not None else "no-maximum"))
-        if int(mx) not in ends:
-            ctx.violation(key + "/end", "automatic window does not end where n(1-p) stops increasing", got=int(mx), allowed=sorted(ends), roq=roq[max(0, int(mx) - 2):int(mx) + 3])
-        elif int(mn) != int(numpy.searchsorted(p, 0.1 * p[int(mx)])):
-            ctx.violation(key + "/start", "automatic window does not start at one tenth of its end pressure", got=int(mn), expected=int(numpy.searchsorted(p, 0.1 * p[int(mx)])))
-        n_mono = res[1][2] if entry == "raw" else res[1]["n_monolayer"]
-        _cmp(ctx, key, "n_monolayer", n_mono, nm, 1e-6)
+    _auto_window(ctx, p, n, sigma, iso, dg, nm)
 
 
 # ------------------------------------------------------------------ Langmuir
@@ -415,6 +457,17 @@ def _run_alphas(case, ctx):
 # ------------------------------------------------------------------ Dubinin
 
 
+def _exponent_identifiable(p, v, m):
+    """Can 1 - r^2 of ln V against ln(1/p)^m tell m from m (1 +- 1e-3)?  (noise floor of r^2 in doubles ~1e-13)"""
+    import scipy.stats
+    y = numpy.log(v)
+    vals = []
+    for f in (1 - 1e-3, 1 + 1e-3):
+        x = numpy.log(1 / p)**(m * f)
+        vals.append(1 - scipy.stats.linregress(x, y).rvalue**2)
+    return min(vals) > 1e-11
+
+
 def _run_da(case, ctx):
     import pygaps
     from pygaps.characterisation.dr_da_plots import da_plot
@@ -464,6 +517,10 @@ def _run_da(case, ctx):
         _window_check(ctx, key, mn, mx, inside, p, lim)
         rt = 1e-7 if not fitted else 2e-3
         ok = True
+        if fitted and not _exponent_identifiable(p[inside], n[inside] * M / rho, m):
+            # (nearly) coincident points in the window: every exponent linearises the data to rounding, the generating one is not determined
+            ctx.count("da", "exp-fitted/window-does-not-determine-the-exponent (not judged)")
+            continue
         if fitted:
             ok = _cmp(ctx, key, "exponent", ex, m, 1e-3)
         if ok:
@@ -473,6 +530,8 @@ def _run_da(case, ctx):
 
 def finalize(ctx):
     reasons = []
+    if ctx.tables.get("bet", {}).get("auto-window/interior-maximum", 0) < 20:
+        reasons.append("fewer than 20 automatic BET windows with an interior maximum of n(1-p)")
     for kind, need in (("bet", 100), ("langmuir", 60), ("tplot", 60), ("alphas", 60), ("da", 100)):
         if sum(ctx.tables.get(kind, {}).values()) < need:
             reasons.append("fewer than %d %s evaluations" % (need, kind))
